@@ -205,6 +205,10 @@ pub fn strip_nulls(v: &mut Value) {
     }
 }
 
+pub fn main_fnv(b: &[u8]) -> u64 {
+    fnv64(b) | 1
+}
+
 pub fn fnv64(b: &[u8]) -> u64 {
     let mut h: u64 = 0xcbf29ce484222325;
     for x in b {
@@ -292,6 +296,7 @@ fn cmd_codec(args: &[String]) -> i32 {
     let suite = arg_val(args, "--suite").unwrap_or_else(|| "toy".into());
     let seed: u64 = arg_val(args, "--seed").and_then(|s| s.parse().ok()).unwrap_or(1);
     let heavy = args.iter().any(|a| a == "--heavy");
+    codec::set_fuzz(args.iter().any(|a| a == "--fuzz"));
     let out = arg_val(args, "--events").expect("--events");
     if suite == "toy" {
         let q: u32 = arg_val(args, "--q").and_then(|s| s.parse().ok()).unwrap_or(251);
